@@ -453,7 +453,7 @@ def _is_exact(sc):
 # ------------------------------------------------------------------ 1. get_volume_positions on scenarios
 def _position_cases(ctx, reqs, pend):
     from highdicom import spatial as sp
-    n = ctx.n(420, 9000)
+    n = ctx.n(6000, 14000)
     for i in range(n):
         r = ctx.rng('stack', i)
         sc = _scenario(r, i)
@@ -537,7 +537,7 @@ def _exhaustive_perms(ctx, reqs, pend):
 def _malformed_cases(ctx, reqs, pend):
     """option combinations and shapes the function must refuse (ok-vs-error against the model)"""
     from highdicom import spatial as sp
-    n = ctx.n(48, 600)
+    n = ctx.n(250, 700)
     kinds = ['unsorted_dups', 'unsorted_missing', 'both_tol', 'hint_zero', 'empty', 'ragged', 'orilen', 'conv', 'hand',
              'single_bad_ori']
     for i in range(n):
@@ -587,7 +587,7 @@ def _malformed_cases(ctx, reqs, pend):
 def _integer_cases(ctx, reqs, pend):
     """integer-valued positions (lists of int, int arrays) are positions too"""
     from highdicom import spatial as sp
-    n = ctx.n(24, 300)
+    n = ctx.n(160, 400)
     for i in range(n):
         r = ctx.rng('int', i)
         row, col = AXIS_PAIRS[r.randrange(24)]
@@ -641,7 +641,7 @@ def _hint_drift_cases(ctx, reqs, pend):
 
 # ------------------------------------------------------------------ 2. numpy primitives against their declarative models (L2)
 def _primitive_cases(ctx, reqs, pend2):
-    n = ctx.n(60, 1500)
+    n = ctx.n(500, 1500)
     for i in range(n):
         r = ctx.rng('prim', i)
         m = r.randint(1, 8)
@@ -760,7 +760,7 @@ def _assembly_cases(ctx, reqs, pend):
     import highdicom as hd
     from highdicom import spatial as sp
     from gen import sources
-    n = ctx.n(36, 600)
+    n = ctx.n(450, 900)
     for i in range(n):
         r = ctx.rng('series', i)
         ori, cls = _orientation(r)
@@ -936,7 +936,7 @@ def _series_wrapper_cases(ctx, reqs, pend):
     import highdicom as hd
     from highdicom import spatial as sp
     from gen import sources
-    n = ctx.n(40, 500)
+    n = ctx.n(500, 800)
     kinds = ['plain', 'plain', 'hint_ok', 'hint_bad', 'hint_one', 'hint_one_bad', 'hint_conflict', 'other_orientation', 'one', 'empty',
              'multiframe', 'other_series', 'other_for', 'other_spacing', 'no_orientation']
     for i in range(n):
@@ -1095,7 +1095,7 @@ def _sort_index_cases(ctx, reqs, pend):
     order of the volume indices of get_volume_positions for the same options."""
     from highdicom import spatial as sp
     from gen import sources
-    n = ctx.n(64, 800)
+    n = ctx.n(550, 1000)
     combos = [(c, h) for c in CONVS for h in ('RIGHT_HANDED', 'LEFT_HANDED')]
     for i in range(n):
         r = ctx.rng('sortidx', i)
